@@ -47,8 +47,9 @@ operators of `pre` selected by `inS` and of `L` (the operator producing the subg
 outputs). If
 * (guard) no operator that stays reads (as input *or* through a subgraph capture) an output of the
   removed operators `pre.filter inS`,
-* (hyp) on every environment the fused operator `F` computes for the declared outputs what the
-  replaced operators compute,
+* (hyp) on every environment that agrees with `env` outside the plan's outputs (so constants and
+  graph inputs have their actual values) the fused operator `F` computes for the declared outputs
+  what the replaced operators compute,
 then every value that is not a removed intermediate has the same denotation (`run … env id`,
 including failure `none`) before and after the rewrite. -/
 theorem rewrite_core
@@ -59,7 +60,8 @@ theorem rewrite_core
     (hFreads : ∀ i ∈ F.reads, i ∉ outsAll (pre.filter inS))
     (hguardPre : ∀ o ∈ pre, inS o = false → ∀ i ∈ o.reads, i ∉ outsAll (pre.filter inS))
     (hguardPost : ∀ o ∈ post, ∀ i ∈ o.reads, i ∉ outsAll (pre.filter inS))
-    (hsem : ∀ E : Env V, (∀ i ∈ outsAll (pre.filter inS ++ [L]), E i = none) →
+    (hsem : ∀ E : Env V, (∀ i, i ∉ outsAll (pre ++ L :: post) → E i = env i) →
+        (∀ i ∈ outsAll (pre.filter inS ++ [L]), E i = none) →
         ∀ j ∈ L.outs, run sem (pre.filter inS ++ [L]) E j = step sem E F j) :
     ∀ i, i ∉ outsAll (pre.filter inS) →
       run sem (pre ++ L :: post) env i
@@ -136,7 +138,13 @@ theorem rewrite_core
         rw [run_append]
         show step sem (run sem (pre.filter inS) E0) L k = step sem E L k
         exact step_agree sem _ _ L k (fun r _ => hstab r) (hstab k)
-      have h2 := hsem E0 hE0none k hk
+      have hE0env : ∀ i, i ∉ outsAll (pre ++ L :: post) → E0 i = env i := by
+        intro i hi'
+        have hnp : i ∉ outsAll pre := fun h' => hi' (by rw [outsAll_append]; exact List.mem_append.mpr (Or.inl h'))
+        have hns : i ∉ outsAll (pre.filter inS) := fun h' => hnp (hsubS i h')
+        simp only [E0, hns, if_false]
+        exact run_off sem pre env i hnp
+      have h2 := hsem E0 hE0env hE0none k hk
       have h3 : step sem E0 F k = step sem E F k := by
         apply step_agree
         · intro r hr
